@@ -780,6 +780,8 @@ def plan(tier, seed):
         jobs.append({"prop": PROP, "mode": "stdin", "i": i, "seed": H(seed, tier, PROP, "stdin", i)})
     for i in range(nl):
         jobs.append({"prop": PROP, "mode": "longlived", "i": i, "seed": H(seed, tier, PROP, "longlived", i)})
+    # the driver does not import vsg: the shards compute the case list, job i takes every 16th case
+    jobs += [{"prop": PROP, "mode": "optleak", "i": i, "of": 16, "tier": tier, "seed": seed} for i in range(16)]
     jobs += common.regress_jobs(PROP, 8 if tier == "quick" else 100)
     return jobs
 
@@ -831,12 +833,123 @@ def gen_longlived(seed):
     return d
 
 
+# ---------------------------------------------------------------------------------------------
+# option leak: a per-file option value of file A must not reach file B handled by the same process
+
+
+def _learn_reporters(env, data):
+    key = ("c15rep", wire.digest(data))
+    if key not in env.cache:
+        d = {
+            "property": PROP, "engine": "cli", "run_seed": 0, "umask": "022", "cpu_count": 1, "dirsalt": 0, "sched_seed": 0,
+            "sandbox": [workload.sb_entry("src/a.vhd", data)], "dirs": ["out"],
+            "argv": ["-p", "1", "-ap", "--json", "out/learn.json", "-f", "src/a.vhd"], "stdin": None, "faults": [], "decisions": None, "meta": {},
+        }
+        r = env.run(d, keep_files=("out/learn.json",))
+        ids = set()
+        try:
+            for fe in json.loads(r["kept"]["out/learn.json"].decode())["files"]:
+                for v in fe["violations"]:
+                    ids.add(v["rule"])
+        except Exception:
+            pass
+        env.cache[key] = sorted(ids)
+    return env.cache[key]
+
+
+def optleak_cases(env, tier, seed):
+    """(design path, rule, option, value, other value): every documented value of every documented
+    option of (1) every rule that reports on a hand-written /verif/corpus design, on that design,
+    and (2) a seeded sample (quick) / all (thorough) of the rules, on the rule's own test input."""
+    import random
+
+    dom = workload.option_domains()
+    rules = {r[0]: r for r in runner.RULES if r[1] != 0}
+    out = []
+    own = sorted(p for p, s in workload.corpus() if p.startswith(os.path.join(workload.HERE, "corpus")))
+    for p in own:
+        for u in _learn_reporters(env, workload.read(p)):
+            r = rules.get(u)
+            if not r:
+                continue
+            for o in r[6]:
+                if o in dom and o not in ("indent_size", "length"):
+                    for v in dom[o]:
+                        out.append((p, u, o, v))
+    rest = []
+    for u, r in sorted(rules.items()):
+        name, num = u.rsplit("_", 1)
+        p = os.path.join(workload.REPO, "tests", name, "rule_%s_test_input.vhd" % num)
+        if not os.path.exists(p) or os.path.getsize(p) > 20000:
+            continue
+        for o in r[6]:
+            if o in dom and o not in ("indent_size", "length"):
+                for v in dom[o]:
+                    rest.append((p, u, o, v))
+    if tier == "quick":
+        random.Random(H(seed, "optleak")).shuffle(rest)
+        rest = rest[:96]
+    return out + rest
+
+
+def gen_optleak(seed, case):
+    p, u, o, v = case
+    rng = substream(seed, "workload")
+    data = workload.read(p)
+    dom = workload.option_domains()
+    others = [x for x in dom[o] if x != v]
+    cfg = {"rule": {u: {"disable": False}}, "file_rules": [{"src/a.vhd": {"rule": {u: {o: v}}}}]}
+    if others and rng.random() < 0.35:
+        cfg["rule"][u][o] = rng.choice(others)  # an explicit project-wide value, overridden for A only
+    names = ["src/a.vhd", "src/b.vhd"]
+    if rng.random() < 0.3:
+        names.append("src/c.vhd")
+    sandbox = [workload.sb_entry(n, data) for n in names] + [workload.sb_entry("cfg.json", common.json_bytes(cfg))]
+    order = list(names)
+    if rng.random() < 0.3:
+        rng.shuffle(order)
+    opts = ["-p", rng.choice(["1", "1", "1", "2"])]
+    fix = rng.random() < 0.3
+    opts += ["--fix"] if fix else ["-ap"]
+    opts += ["-of", rng.choice(["vsg", "syntastic"]), "--json", "out/j.json", "-c", "cfg.json"]
+    return {
+        "property": PROP, "engine": "cli", "run_seed": seed, "umask": "022", "cpu_count": 2, "dirsalt": 0, "sched_seed": seed, "policy": "sticky",
+        "sandbox": sandbox, "dirs": ["out"], "argv": opts + ["-f"] + order, "stdin": None, "faults": [], "decisions": None,
+        "meta": {"files": [{"path": n, "from": os.path.relpath(p, workload.REPO) if p.startswith(workload.REPO) else "corpus/" + os.path.basename(p), "tags": [], "size": len(data), "digest": wire.digest(data)} for n in names],
+                 "fix": fix, "jobs": opts[1], "dup": None, "stop": None, "style": None, "of": None, "json": True, "junit": False, "glob": False, "config": True, "optleak": [u, o, str(v)]},
+    }
+
+
+def run_optleak(job, env):
+    out = common.JobResult(job)
+    cases = optleak_cases(env, job.get("tier", "quick"), job["seed"])
+    for k, case in list(enumerate(cases))[job["i"] :: job["of"]]:
+        d = gen_optleak(H(job["seed"], "optleak", k), case)
+        d["hashseed_class"] = job.get("class", 0)
+        V, res = judge(d, env)
+        if V is None:
+            out.skipped("solo-run-not-usable")
+            out.account(d, res, [], None, nontrivial=False)
+            continue
+        if not isinstance(V, list):
+            out.account(d, res, V, None, nontrivial=False)
+            continue
+        out.account(d, res, V, _shape(d, res) + (tuple(d["meta"]["optleak"]),), nontrivial=isinstance(res, dict) and nontrivial(d, res))
+        out.stat("optleak_cases", 1)
+        out.probe("per_file_option_value_next_to_a_file_without_it")
+        if V:
+            out.violation(d, V)
+    return out.done()
+
+
 def _shape(desc, res):
     m = desc["meta"]
     return (tuple(sorted(f["digest"] for f in m["files"])), tuple(a for a in desc["argv"] if not a.endswith(".vhd")), common.trace_hash(res))
 
 
 def run_job(job, env):
+    if job["mode"] == "optleak":
+        return run_optleak(job, env)
     out = common.JobResult(job)
     seed = job["seed"]
     mode = job["mode"]
